@@ -633,6 +633,9 @@ def run(model, tier):
     for cshort in spec['nan_branch']['classes']:
         ci = model.get_class(PREFIX + cshort)
         check_nan_branch(model, ci, res)
+    # ---- rule 4: a quantity a classification test allows to be zero is not divided by unconditionally ----
+    from . import c20_division
+    c20_division.sedov(model, res)
     return res
 
 
